@@ -103,6 +103,7 @@ def nest_kinds(N):
     return [
         ('{', '}'), ('\\%s{' % N.x, '}'), ('\\%s[' % N.x, ']'), ('\\begin{%s}' % N.e, '\\end{%s}' % N.e),
         ('{\\item ', '}'), ('${', '}$'), ('\\[{', '}\\]'), ('\\begin{equation}', '\\end{equation}'),
+        ('\\begin{%s}\\end{' % N.e, '}'), ('\\%s[{' % N.x, '}]'),
     ]
 
 
